@@ -172,11 +172,14 @@ impl FmtAttribute {
         }
 
         let expr = match param.arg {
-            // (3) And either exactly one positional argument is specified.
-            Some(parsing::Argument::Integer(_)) | None => (self.args.len() == 1)
+            // (3) And either exactly one positional argument is specified (and referred).
+            Some(parsing::Argument::Integer(0)) | None => (self.args.len() == 1)
                 .then(|| self.args.first())
                 .flatten()
                 .map(|a| a.expr.clone()),
+
+            // Referring any other positional argument is left for the compiler to report.
+            Some(parsing::Argument::Integer(_)) => None,
 
             // (4) Or the formatting parameter's name refers to some outer binding.
             Some(parsing::Argument::Identifier(name)) if self.args.is_empty() => {
